@@ -1,6 +1,6 @@
 (* Proofs/KeystoneWf.v -- the refined builder invariant: no adjacent text nodes, number of
    element / text children of the root, and the link between [after_text] and the last child. *)
-From Coq Require Import List NArith Bool Lia ZifyBool ZifyN ZifyNat.
+From Coq Require Import List PeanoNat NArith Bool Lia ZifyBool ZifyN ZifyNat.
 From RX Require Import Generated.
 From RX.Model Require Import Base CharClass Stream Tokenizer Doc Builder.
 From RX.Spec Require Import Tree.
@@ -199,3 +199,278 @@ Proof.
   - exact H5.
   - intros _ _. rewrite last_not_text_snoc. reflexivity.
 Qed.
+
+(* ------------------------------------------------------------------ *)
+(** * Contexts that differ in fields the invariant does not read *)
+
+Definition lp (c : context) : nat := length (c_parent_prefixes c).
+Definition fl (c : context) : N := c_entity_floor c.
+
+Definition same_ctx (c c' : context) : Prop :=
+  same_tree c c' /\ c_after_text c' = c_after_text c /\ c_entity_floor c' = c_entity_floor c.
+
+Lemma same_ctx_refl c : same_ctx c c.
+Proof. split; [apply same_tree_refl|split; reflexivity]. Qed.
+
+Lemma same_ctx_trans c1 c2 c3 : same_ctx c1 c2 -> same_ctx c2 c3 -> same_ctx c1 c3.
+Proof.
+  intros [H1 [H2 H3]] [G1 [G2 G3]]. split; [eapply same_tree_trans; eassumption|].
+  split; congruence.
+Qed.
+
+Lemma same_ctx_nodes c c' :
+  d_nodes (c_doc c') = d_nodes (c_doc c) ->
+  c_parent_id c' = c_parent_id c ->
+  c_awaiting c' = c_awaiting c ->
+  c_parent_prefixes c' = c_parent_prefixes c ->
+  c_after_text c' = c_after_text c ->
+  c_entity_floor c' = c_entity_floor c ->
+  same_ctx c c'.
+Proof. intros. split; [apply same_tree_nodes; assumption|split; assumption]. Qed.
+
+Lemma same_ctx_lp c c' : same_ctx c c' -> lp c' = lp c.
+Proof. intros [[_ [_ [_ H]]] _]. unfold lp. rewrite H. reflexivity. Qed.
+
+Lemma same_ctx_fl c c' : same_ctx c c' -> fl c' = fl c.
+Proof. intros [_ [_ H]]. exact H. Qed.
+
+Definition Core (e : nat) (at_ : bool) (c : context) : Prop :=
+  exists k cs outer, Inv2 e at_ k cs outer c.
+
+Lemma Core_weaken e at_ c : Core e at_ c -> Core e false c.
+Proof. intros [k [cs [outer H]]]. exists k, cs, outer. eapply Inv2_weaken. exact H. Qed.
+
+Lemma Core_ctx e at_ c c' : Core e at_ c -> same_ctx c c' -> Core e at_ c'.
+Proof.
+  intros [k [cs [outer H]]] [H1 [H2 H3]]. exists k, cs, outer.
+  eapply Inv2_same; [exact H|exact H1|]. intros _. congruence.
+Qed.
+
+Lemma Core_tree e c c' : Core e false c -> same_tree c c' -> Core e false c'.
+Proof.
+  intros [k [cs [outer H]]] H1. exists k, cs, outer.
+  eapply Inv2_same; [exact H|exact H1|]. discriminate.
+Qed.
+
+Lemma Core_lp e at_ c k cs outer : Inv2 e at_ k cs outer c -> lp c = S (length outer).
+Proof. intros H. exact (inv_pp _ _ _ _ (i2_inv _ _ _ _ _ _ H)). Qed.
+
+Section WithText.
+Variable text : bytes.
+
+Lemma resolve_namespaces_ctx c r c' :
+  resolve_namespaces text c = Ok (r, c') -> same_ctx c c'.
+Proof.
+  unfold resolve_namespaces. intros H.
+  apply bind_ok in H. destruct H as [pnd [_ H]].
+  destruct (nd_kind pnd).
+  - apply bind_ok in H. destruct H as [r0 [_ H]]. injection H as _ <-. apply same_ctx_refl.
+  - destruct (c_ns_start_idx c =? _).
+    + injection H as _ <-. apply same_ctx_refl.
+    + destruct nss as [pa pe].
+      apply bind_ok in H. destruct H as [d1 [Hd1 H]].
+      apply bind_ok in H. destruct H as [r0 [_ H]]. injection H as _ <-.
+      apply resolve_ns_loop_nodes in Hd1. apply same_ctx_nodes; try reflexivity. exact Hd1.
+  - apply bind_ok in H. destruct H as [r0 [_ H]]. injection H as _ <-. apply same_ctx_refl.
+  - apply bind_ok in H. destruct H as [r0 [_ H]]. injection H as _ <-. apply same_ctx_refl.
+  - apply bind_ok in H. destruct H as [r0 [_ H]]. injection H as _ <-. apply same_ctx_refl.
+Qed.
+
+Lemma resolve_attributes_ctx nss c r c' :
+  resolve_attributes text nss c = Ok (r, c') -> same_ctx c c'.
+Proof.
+  unfold resolve_attributes. destruct (c_cur_attrs c) as [|a l] eqn:E.
+  - intros H. injection H as _ <-. apply same_ctx_refl.
+  - destruct (u32_max <=? _); [discriminate|]. intros H.
+    apply bind_ok in H. destruct H as [d1 [Hd1 H]].
+    apply bind_ok in H. destruct H as [r0 [_ H]]. injection H as _ <-.
+    apply resolve_attrs_loop_nodes in Hd1. apply same_ctx_nodes; try reflexivity. exact Hd1.
+Qed.
+
+Lemma normalize_attribute_ctx value c v c' :
+  normalize_attribute text value c = Ok (v, c') -> same_ctx c c'.
+Proof.
+  unfold normalize_attribute. intros H. mstep H.
+  - mstep H. destruct a as [t ld]. mstep H. injection H as _ <-.
+    apply same_ctx_nodes; reflexivity.
+  - injection H as _ <-. apply same_ctx_refl.
+Qed.
+
+Lemma process_attribute_ctx r ql el prefix local value c c' :
+  process_attribute text r ql el prefix local value c = Ok c' -> same_ctx c c'.
+Proof.
+  unfold process_attribute. intros H. mstep H. destruct a as [v c1].
+  apply normalize_attribute_ctx in Hb.
+  eapply same_ctx_trans; [exact Hb|]. clear Hb.
+  repeat (mstep H).
+  all: try (injection H as <-); try apply same_ctx_refl.
+  all: try (apply same_ctx_nodes; reflexivity).
+  all: match goal with Hp : push_ns _ _ _ _ = Ok _ |- _ =>
+         apply push_ns_nodes in Hp; apply same_ctx_nodes; try reflexivity; exact Hp end.
+Qed.
+
+Lemma append_node_fields kind r c id c' :
+  append_node kind r c = Ok (id, c') ->
+  c_parent_prefixes c' = c_parent_prefixes c /\ c_entity_floor c' = c_entity_floor c /\
+  c_after_text c' = c_after_text c.
+Proof.
+  unfold append_node. intros H. repeat (mstep H). injection H as _ <-. repeat split.
+Qed.
+
+Lemma reset_after_text_fields c c' :
+  reset_after_text text c = Ok c' ->
+  same_tree c c' /\ c_after_text c' = [] /\ c_entity_floor c' = c_entity_floor c.
+Proof.
+  intros H. split; [eapply reset_after_text_same; exact H|].
+  unfold reset_after_text in H. destruct (c_after_text c) as [|x [|y l]] eqn:E.
+  - injection H as <-. split; [exact E|reflexivity].
+  - injection H as <-. split; reflexivity.
+  - mstep H. injection H as <-. split; [reflexivity|].
+    unfold merge_text in Hb. repeat (mstep Hb). injection Hb as <-. reflexivity.
+Qed.
+
+(* ---- tokens ---- *)
+
+Lemma K_reset e at_ c c' :
+  Core e at_ c -> reset_after_text text c = Ok c' ->
+  Core e false c' /\ lp c' = lp c /\ fl c' = fl c /\ c_after_text c' = [].
+Proof.
+  intros HC H. apply reset_after_text_fields in H. destruct H as [H1 [H2 H3]].
+  split; [eapply Core_tree; [eapply Core_weaken; exact HC|exact H1]|].
+  split; [|split; assumption].
+  destruct H1 as [_ [_ [_ H1]]]. unfold lp. rewrite H1. reflexivity.
+Qed.
+
+Lemma K_leaf e at_ kind r c id c' :
+  Core e at_ c -> append_node kind r c = Ok (id, c') ->
+  is_element_kind kind = false -> kind_of kind <> KdRoot -> kind_of kind <> KdText ->
+  Core e true c' /\ lp c' = lp c /\ fl c' = fl c.
+Proof.
+  intros [k [cs [outer HI]]] H He Hr Ht.
+  pose proof (append_node_fields _ _ _ _ _ H) as [F1 [F2 F3]].
+  split; [|split; [unfold lp; rewrite F1; reflexivity|exact F2]].
+  exists k, (cs ++ [T (kind_of kind) []]), outer.
+  pose proof (Inv2_append_closed _ _ _ _ _ _ _ _ _ _ HI H Hr Ht) as HI'.
+  destruct (append_node_rows _ _ _ _ _ _ _ _ (i2_inv _ _ _ _ _ _ HI) H) as [nodes' [_ [Hc' _]]].
+  rewrite He in Hc'.
+  assert (Hz : (e + match outer with
+                    | [] => if kind_eqb (kind_of kind) KdElem then 1 else 0
+                    | _ :: _ => 0 end = e)%nat).
+  { destruct outer; [|lia]. destruct kind; try discriminate; cbn [kind_of kind_eqb]; lia. }
+  rewrite Hz in HI'. rewrite Hc' in HI' |- *. exact HI'.
+Qed.
+
+Definition root_inc (c : context) : nat := if Nat.eqb (lp c) 1 then 1%nat else 0%nat.
+
+Lemma root_inc_outer e at_ k cs outer c :
+  Inv2 e at_ k cs outer c -> root_inc c = match outer with [] => 1%nat | _ => 0%nat end.
+Proof.
+  intros H. unfold root_inc. rewrite (Core_lp _ _ _ _ _ _ H). destruct outer; reflexivity.
+Qed.
+
+Lemma process_element_K e at_ el r c c' :
+  Core e at_ c -> process_element text el r c = Ok c' ->
+  match el with
+  | EOpen => Core (e + root_inc c) true c' /\ lp c' = S (lp c) /\ fl c' = fl c
+  | EEmpty => Core (e + root_inc c) true c' /\ lp c' = lp c /\ fl c' = fl c
+  | EClose _ _ => Core e true c' /\ S (lp c') = lp c /\ fl c' = fl c /\
+                  fl c < len_N (c_parent_prefixes c)
+  end.
+Proof.
+  unfold process_element. intros HC H.
+  destruct (slice_len _ =? 0). { destruct el; try discriminate; mstep H. }
+  mbind H nc1 H1. destruct nc1 as [nss c1]. apply resolve_namespaces_ctx in H1.
+  mbind H ac2 H2. destruct ac2 as [attrs c2]. apply resolve_attributes_ctx in H2.
+  assert (Hctx : same_ctx c c2).
+  { eapply same_ctx_trans; [exact H1|]. eapply same_ctx_trans; [|exact H2].
+    apply same_ctx_nodes; reflexivity. }
+  assert (HC2 : Core e at_ c2) by (eapply Core_ctx; eassumption).
+  assert (Hri : root_inc c2 = root_inc c) by (unfold root_inc; rewrite (same_ctx_lp _ _ Hctx); reflexivity).
+  rewrite <- (same_ctx_lp _ _ Hctx), <- (same_ctx_fl _ _ Hctx), <- Hri.
+  assert (Hpp : c_parent_prefixes c = c_parent_prefixes c2).
+  { destruct Hctx as [[_ [_ [_ Hx]]] _]. symmetry. exact Hx. }
+  rewrite Hpp.
+  clear HC H1 H2 Hctx Hri Hpp c c1. destruct HC2 as [k [cs [outer HI]]].
+  pose proof (i2_inv _ _ _ _ _ _ HI) as HI1.
+  destruct el as [|prefix local|].
+  - (* open *)
+    mbind H tns Htns. mbind H ic3 H3. destruct ic3 as [id c3]. injection H as <-.
+    pose proof (append_node_fields _ _ _ _ _ H3) as [F1 [F2 F3]].
+    split; [|split].
+    + exists KdElem, [], ((k, cs) :: outer). rewrite (root_inc_outer _ _ _ _ _ _ HI).
+      eapply Inv2_open; [exact HI|exact H3|reflexivity].
+    + unfold lp. cbn [c_parent_prefixes set_parent_prefixes]. rewrite app_length, F1.
+      cbn [length]. lia.
+    + unfold fl. cbn [c_entity_floor set_parent_prefixes set_parent_id]. exact F2.
+  - (* close *)
+    mstep H; [mstep H|]. mbind H pnd' Hpnd.
+    destruct (nth_N _ _) as [pnd|] eqn:Epnd; [|discriminate].
+    injection Hpnd as <-.
+    mbind H ppx Hppx. mbind H nodes1 Hb1. mbind H u Hu.
+    pose proof (inv_parent_row _ _ _ _ _ HI1 Epnd) as Hrow.
+    assert (Hpar : nd_parent pnd = zpar outer).
+    { change (nd_parent pnd) with (l_parent (link_of pnd)). rewrite Hrow. reflexivity. }
+    rewrite Hpar in H. destruct outer as [|[k' cs'] o]; cbn [zpar] in H; [mstep H|].
+    destruct (removelast _) eqn:Erl in H; [discriminate|]. injection H as <-.
+    apply upd_node_spec in Hb1. destruct Hb1 as [-> _].
+    assert (Hlen : length (removelast (c_parent_prefixes c2)) = S (length o)).
+    { rewrite removelast_len, (inv_pp _ _ _ _ HI1). reflexivity. }
+    split; [|split; [|split]].
+    + exists k', (cs' ++ [T k cs]), o.
+      eapply Inv2_close; [exact HI| | | |].
+      * cbn [c_doc set_parent_prefixes set_parent_id set_awaiting set_doc d_nodes set_nodes].
+        apply links_mapi_same. intros i x. destruct (i =? _); reflexivity.
+      * reflexivity.
+      * reflexivity.
+      * cbn [c_parent_prefixes set_parent_prefixes]. rewrite <- Erl.
+        cbn [c_parent_prefixes set_parent_id set_awaiting set_doc]. exact Hlen.
+    + unfold lp. cbn [c_parent_prefixes set_parent_prefixes]. rewrite <- Erl.
+      cbn [c_parent_prefixes set_parent_id set_awaiting set_doc].
+      rewrite Hlen, (inv_pp _ _ _ _ HI1). reflexivity.
+    + reflexivity.
+    + unfold fl. lia.
+  - (* empty *)
+    mbind H tns Htns. mbind H ic3 H3. destruct ic3 as [id c3]. injection H as <-.
+    pose proof (append_node_fields _ _ _ _ _ H3) as [F1 [F2 F3]].
+    split; [|split; [unfold lp; cbn [c_parent_prefixes set_awaiting]; rewrite F1; reflexivity|exact F2]].
+    exists k, (cs ++ [T KdElem []]), outer. rewrite (root_inc_outer _ _ _ _ _ _ HI).
+    match type of H3 with append_node ?kd _ _ = _ =>
+      pose proof (Inv2_append_closed _ _ _ _ _ _ kd _ _ _ HI H3) as HI' end.
+    destruct (append_node_rows _ _ _ _ _ _ _ _ HI1 H3) as [nodes' [_ [Hc' _]]].
+    cbn [is_element_kind] in Hc'. rewrite Hc'. cbn [c_awaiting set_awaiting app].
+    rewrite Hc' in HI'. cbn [kind_of kind_eqb] in HI'.
+    assert (HI'' := HI' ltac:(discriminate) ltac:(discriminate)).
+    destruct outer; exact HI''.
+Qed.
+
+Lemma K_append_text e t r c c' :
+  Core e true c -> (2 <= lp c)%nat -> append_text t r c = Ok c' ->
+  Core e true c' /\ lp c' = lp c /\ fl c' = fl c.
+Proof.
+  unfold append_text. intros [k [cs [outer HI]]] Hlp H. mbind H c1 H1. injection H as <-.
+  assert (Ho : outer <> []).
+  { rewrite (Core_lp _ _ _ _ _ _ HI) in Hlp. destruct outer; [cbn in Hlp; lia|discriminate]. }
+  destruct (c_after_text c) as [|x l] eqn:Eat.
+  - mbind H1 ic2 H2. destruct ic2 as [id c2]. injection H1 as <-.
+    pose proof (append_node_fields _ _ _ _ _ H2) as [F1 [F2 F3]].
+    split; [|split; [unfold lp; cbn [c_parent_prefixes set_after_text]; rewrite F1; reflexivity|exact F2]].
+    exists k, (cs ++ [T KdText []]), outer.
+    pose proof (Inv2_append_text _ _ _ _ _ _ _ _ _ HI Eat Ho H2) as HI'.
+    destruct (append_node_rows _ _ _ _ _ _ _ _ (i2_inv _ _ _ _ _ _ HI) H2) as [nodes' [_ [Hc' _]]].
+    cbn [is_element_kind] in Hc'. rewrite Hc' in HI'.
+    destruct HI' as [G1 G2 G3 G4 G5 G6]. rewrite Hc'. constructor; try assumption.
+    + eapply Inv_same; [exact G1| | | |]; reflexivity.
+    + intros _ Hn. cbn [c_after_text set_after_text] in Hn. destruct (c_after_text _); discriminate.
+  - injection H1 as <-. split; [|split; reflexivity].
+    exists k, cs, outer. destruct HI as [G1 G2 G3 G4 G5 G6]. constructor; try assumption.
+    + eapply Inv_same; [exact G1| | | |]; reflexivity.
+    + intros _ Hn. cbn [c_after_text set_after_text] in Hn. rewrite Eat in Hn. discriminate.
+Qed.
+
+Lemma K_cdata e txt r c c' :
+  Core e true c -> (2 <= lp c)%nat -> process_cdata text txt r c = Ok c' ->
+  Core e true c' /\ lp c' = lp c /\ fl c' = fl c.
+Proof.
+  unfold process_cdata. intros HC Hlp H. destruct (mem_b 13 _); eapply K_append_text; eassumption.
+Qed.
+End WithText.
